@@ -271,4 +271,39 @@ theorem applyR_order (r : CbRepairs) (p : Proc) (hc : Clean p.callbacks) (op : R
     obtain ⟨c, hc1, rfl⟩ := List.mem_map.mp hn
     exact sortCallbacksR_complete r _ hok c hc1
 
+/-! ### the sort works on copies (repair of F20): nothing a sort writes reaches `p.callbacks` -/
+
+/-- with copies, `compile` leaves in `p.callbacks` exactly the records it was given (filtered, pre-sorted):
+    no `before`/`after` field is ever rewritten -/
+theorem compileR_copies (r : CbRepairs) (hc : r.sortCopies = true) (p : Proc) :
+    (p.compileR r).1.callbacks = prepass r (compileTable p) := by
+  rw [compileR_eq]
+  simp only
+  rw [sortCallbacksR_cs, if_pos hc]
+
+theorem runR_copies_fold (r : CbRepairs) (hc : r.sortCopies = true) (Q : Cb → Prop) (ops : List RegOp)
+    (hops : ∀ op ∈ ops, Q op.toCb) (p : Proc) (errs : List (Option SortErr)) (hp : ∀ c ∈ p.callbacks, Q c) :
+    ∀ c ∈ (ops.foldl (fun (acc : Proc × List (Option SortErr)) op =>
+        let (p', e) := acc.1.applyR r op
+        (p', acc.2 ++ [e])) (p, errs)).1.callbacks, Q c := by
+  induction ops generalizing p errs with
+  | nil => exact hp
+  | cons op ops ih =>
+    simp only [List.foldl_cons]
+    apply ih (fun o ho => hops o (by simp [ho]))
+    intro c hcm
+    unfold Proc.applyR at hcm
+    rw [compileR_copies r hc] at hcm
+    have := ((mem_compileTable _ c).mp ((mem_prepass r _ c).mp hcm)).1
+    rcases List.mem_append.mp this with h | h
+    · exact hp c h
+    · simp at h; subst h; exact hops op (by simp)
+
+/-- with copies, after ANY history every record of `p.callbacks` is literally one of the registrations of the
+    history: same name, same handler, and the `before`/`after` it was registered with -/
+theorem runR_copies_records (r : CbRepairs) (hc : r.sortCopies = true) (h : List RegOp) :
+    ∀ c ∈ (Proc.runR r {} h).1.callbacks, ∃ op ∈ h, c = op.toCb :=
+  runR_copies_fold r hc (fun c => ∃ op ∈ h, c = op.toCb) h (fun op ho => ⟨op, ho, rfl⟩) {} []
+    (by intro c hc; cases hc)
+
 end Gorm.CbL
